@@ -238,8 +238,38 @@ fn import_real(p: &tp::Library) -> Result<TLib, String> {
     teardown(&ptrs);
     m
 }
+/// history variant `tproto.export <tlib> <earlier tlib>`: the real library is first built with the EARLIER instance lists
+/// and exported (also ordered / placed: everything that might remember something), then the SAME cells get the final
+/// instance lists in place — the library's cell list is untouched — and the library is exported again
+fn export_after_edit(lib: &TLib, earlier: &TLib) -> Result<tp::Library, String> {
+    if earlier.cells.len() != lib.cells.len() || earlier.items != lib.items { return Err("bad-op".into()); }
+    let (rl, ptrs) = build(earlier).ok_or_else(|| "bad-op".to_string())?;
+    let _ = t::conv::proto::ProtoExporter::export(&rl);
+    let _ = rl.dep_order();
+    for (ci, c) in lib.cells.iter().enumerate() {
+        let mut w = ptrs[ci].write().map_err(|_| "bad-op".to_string())?;
+        match (&c.lay, w.layout.as_mut()) {
+            (Some(ly), Some(lay)) => {
+                lay.instances = Default::default();
+                for i in &ly.insts {
+                    let target = ptrs.get(i.cell).ok_or_else(|| "bad-op".to_string())?.clone();
+                    lay.instances.add(t::instance::Instance { inst_name: i.name.clone(), cell: target, loc: (i.x as isize, i.y as isize).into(), reflect_horiz: i.rh, reflect_vert: i.rv });
+                }
+            }
+            (None, None) => {}
+            _ => return Err("bad-op".into()),
+        }
+    }
+    let r = t::conv::proto::ProtoExporter::export(&rl).map_err(|_| "err".to_string());
+    teardown(&ptrs);
+    r
+}
 pub fn op_export(args: &[Sexp]) -> String {
     let lib = match args.get(0).and_then(p_tlib) { Some(l) => l, None => return "bad-op".into() };
+    if let Some(e) = args.get(1) {
+        let earlier = match p_tlib(e) { Some(l) => l, None => return "bad-op".into() };
+        return match export_after_edit(&lib, &earlier) { Ok(p) => format!("ok {}", plib_s(&p)), Err(e) => e };
+    }
     match export_real(&lib) { Ok(p) => format!("ok {}", plib_s(&p)), Err(e) => e }
 }
 pub fn op_import(args: &[Sexp]) -> String {
@@ -458,6 +488,13 @@ pub fn gen(thorough: bool, rng: &mut Rng, out: &mut Vec<String>) {
         let lib = gen_tlib(rng);
         out.push(format!("tproto.rt {}", tlib_s(&lib)));
         if i % 3 == 0 { out.push(format!("tproto.export {}", tlib_s(&lib))); }
+        if i % 5 == 1 {
+            // history: the same cells first without (some of) their instances, exported, then rewired in place, exported again
+            let mut earlier = lib.clone();
+            let mut changed = false;
+            for c in earlier.cells.iter_mut() { if let Some(ly) = c.lay.as_mut() { if !ly.insts.is_empty() && rng.chance(2, 3) { if rng.coin() { ly.insts.clear(); } else { ly.insts.reverse(); ly.insts.truncate(1); } changed = true; } } }
+            if changed { out.push(format!("tproto.export {} {}", tlib_s(&lib), tlib_s(&earlier))); }
+        }
         if i % 4 == 0 {
             if let Ok(p) = export_real(&lib) {
                 out.push(format!("tproto.import {}", plib_s(&p)));
